@@ -2,7 +2,7 @@ use vstd::prelude::*;
 verus! {
 //@include prelude.rs
 
-//@fn name=rolling_apply_to crate=tea-core ctx="pub trait Vec1View" props=C02 arith=C10
+//@fn name=rolling_apply_to crate=tea-core ctx="pub trait Vec1View" props=C02,C07,C10 arith=C10
 //@sig fn rolling_apply_to<V: Vec1View<T>, T, B: UninitRefMut<OT>, OT, F: RollingFn<T, OT>>(this: &V, window: usize, f: &mut F, out: &mut B)
 //@callbacks f
 //@spec
@@ -15,8 +15,8 @@ verus! {
         final(f).inv(),
         final(f).cfg() == old(f).cfg(),
         final(out).cap() == old(out).cap(),
-        window >= 1 ==> trace_strict(final(f).hist(), this.view(), window),     // #C02 trace
-        window >= 1 ==> out_ok(final(out).written(), final(f).hist()),          // #C02,C10 stored_at_i_once
+        window >= 1 ==> trace_strict(final(f).hist(), this.view(), window),     // #C02,C07 trace
+        window >= 1 ==> out_ok(final(out).written(), final(f).hist()),          // #C02,C07,C10 stored_at_i_once
         window == 0 ==> final(f).hist() =~= old(f).hist() && final(out).written() =~= old(out).written(),  // #C10 window0_writes_nothing
 //@at body first
     proof { assert(nrm(f.hist()) == 0); }
@@ -48,7 +48,7 @@ verus! {
     proof { lemma_nrm_push(h0, f.hist().last()); }
 //@end
 
-//@fn name=rolling2_apply_to crate=tea-core ctx="pub trait Vec1View" props=C02 arith=C10
+//@fn name=rolling2_apply_to crate=tea-core ctx="pub trait Vec1View" props=C02,C07,C10 arith=C10
 //@sig fn rolling2_apply_to<V: Vec1View<T>, T, V2: Vec1View<T2>, T2, B: UninitRefMut<OT>, OT, F: RollingFn<(T, T2), OT>>(this: &V, other: &V2, window: usize, f: &mut F, out: &mut B)
 //@callbacks f
 //@spec
@@ -62,8 +62,8 @@ verus! {
         final(f).inv(),
         final(f).cfg() == old(f).cfg(),
         final(out).cap() == old(out).cap(),
-        window >= 1 ==> trace_strict(final(f).hist(), zipv(this.view(), other.view()), window),     // #C02 trace
-        window >= 1 ==> out_ok(final(out).written(), final(f).hist()),          // #C02,C10 stored_at_i_once
+        window >= 1 ==> trace_strict(final(f).hist(), zipv(this.view(), other.view()), window),     // #C02,C07 trace
+        window >= 1 ==> out_ok(final(out).written(), final(f).hist()),          // #C02,C07,C10 stored_at_i_once
         window == 0 ==> final(f).hist() =~= old(f).hist() && final(out).written() =~= old(out).written(),  // #C10 window0_writes_nothing
 //@at body first
     proof { assert(nrm(f.hist()) == 0); }
@@ -105,7 +105,7 @@ verus! {
     proof { lemma_nrm_push(h0, f.hist().last()); }
 //@end
 
-//@fn name=rolling_apply_idx_to crate=tea-core ctx="pub trait Vec1View" props=C02 arith=C10
+//@fn name=rolling_apply_idx_to crate=tea-core ctx="pub trait Vec1View" props=C02,C07,C10 arith=C10
 //@sig fn rolling_apply_idx_to<V: Vec1View<T>, T, B: UninitRefMut<OT>, OT, F: RollingIdxFn<T, OT>>(this: &V, window: usize, f: &mut F, out: &mut B)
 //@callbacks f
 //@spec
@@ -119,8 +119,8 @@ verus! {
         final(f).cfg() == old(f).cfg(),
         final(f).series() == old(f).series(),
         final(out).cap() == old(out).cap(),
-        window >= 1 ==> trace_idx_strict(final(f).hist(), this.view(), window),     // #C02 trace
-        window >= 1 ==> out_idx_ok(final(out).written(), final(f).hist()),          // #C02,C10 stored_at_i_once
+        window >= 1 ==> trace_idx_strict(final(f).hist(), this.view(), window),     // #C02,C07 trace
+        window >= 1 ==> out_idx_ok(final(out).written(), final(f).hist()),          // #C02,C07,C10 stored_at_i_once
         window == 0 ==> final(f).hist() =~= old(f).hist() && final(out).written() =~= old(out).written(),  // #C10 window0_writes_nothing
 //@loop 1
     invariant
@@ -141,7 +141,7 @@ verus! {
             && f.hist()[j].start == exp_start(window as int, j) && out.written()[j] == f.hist()[j].out,
 //@end
 
-//@fn name=rolling2_apply_idx_to crate=tea-core ctx="pub trait Vec1View" props=C02 arith=C10
+//@fn name=rolling2_apply_idx_to crate=tea-core ctx="pub trait Vec1View" props=C02,C07,C10 arith=C10
 //@sig fn rolling2_apply_idx_to<V: Vec1View<T>, T, V2: Vec1View<T2>, T2, B: UninitRefMut<OT>, OT, F: RollingIdxFn<(T, T2), OT>>(this: &V, other: &V2, window: usize, f: &mut F, out: &mut B)
 //@callbacks f
 //@spec
@@ -156,8 +156,8 @@ verus! {
         final(f).cfg() == old(f).cfg(),
         final(f).series() == old(f).series(),
         final(out).cap() == old(out).cap(),
-        window >= 1 ==> trace_idx_strict(final(f).hist(), zipv(this.view(), other.view()), window),     // #C02 trace
-        window >= 1 ==> out_idx_ok(final(out).written(), final(f).hist()),          // #C02,C10 stored_at_i_once
+        window >= 1 ==> trace_idx_strict(final(f).hist(), zipv(this.view(), other.view()), window),     // #C02,C07 trace
+        window >= 1 ==> out_idx_ok(final(out).written(), final(f).hist()),          // #C02,C07,C10 stored_at_i_once
         window == 0 ==> final(f).hist() =~= old(f).hist() && final(out).written() =~= old(out).written(),  // #C10 window0_writes_nothing
 //@at body first
     let ghost z = zipv(this.view(), other.view());
@@ -186,7 +186,7 @@ verus! {
     proof { assert(z[end as int] == (this.view()[end as int], other.view()[end as int])); }
 //@end
 
-//@fn name=rolling_custom_to crate=tea-core ctx="pub trait Vec1View" props=C02 arith=C10
+//@fn name=rolling_custom_to crate=tea-core ctx="pub trait Vec1View" props=C02,C07,C10 arith=C10
 //@sig fn rolling_custom_to<V: Vec1View<T>, T, B: UninitRefMut<OT>, OT, F: SliceFn<V::Slice, T, OT>>(this: &V, window: usize, f: &mut F, out: &mut B)
 //@callbacks f
 //@spec
@@ -200,8 +200,8 @@ verus! {
         final(f).inv(),
         final(f).cfg() == old(f).cfg(),
         final(out).cap() == old(out).cap(),
-        window >= 1 ==> trace_slice(final(f).hist(), this.view(), wclamp(window, this.view().len())),     // #C02 slice_is_window
-        window >= 1 ==> out_slice_ok(final(out).written(), final(f).hist()),          // #C02,C10 stored_at_i_once
+        window >= 1 ==> trace_slice(final(f).hist(), this.view(), wclamp(window, this.view().len())),     // #C02,C07 slice_is_window
+        window >= 1 ==> out_slice_ok(final(out).written(), final(f).hist()),          // #C02,C07,C10 stored_at_i_once
         window == 0 ==> final(f).hist() =~= old(f).hist() && final(out).written() =~= old(out).written(),  // #C10 window0_writes_nothing
 //@loop 1
     invariant
